@@ -69,10 +69,11 @@ func init() {
 			"schedule granularity is one storage/cluster call; discovery/openapi calls are not scheduled (they commute)",
 			"the Go race detector only sees races on executed paths; porcupine v1.3.0 is trusted",
 		},
-		Gen:            genCases,
-		Run:            run,
-		Post:           post,
-		CaseTimeoutSec: 900,
+		Gen:             genCases,
+		Run:             run,
+		Post:            post,
+		CaseTimeoutSec:  900,
+		RaceClassSuffix: raceSuffix,
 	})
 }
 
@@ -342,5 +343,5 @@ func DevSubset(id string, keep func(kind, driver string) bool) {
 			}
 			return out
 		},
-		Run: run, CaseTimeoutSec: 900})
+		Run: run, CaseTimeoutSec: 900, RaceClassSuffix: raceSuffix})
 }
